@@ -179,6 +179,9 @@ func TestE3RequestVote(t *testing.T) {
 			for _, b := range oracleC08(c, resp, post, eff) {
 				rep.Add(Finding{Kind: "oracle", Property: "C08", Oracle: b, Case: line, Impl: impl})
 			}
+			for _, b := range oracleDurableTV(c.pre, post, eff) {
+				rep.Add(Finding{Kind: "oracle", Property: "C08", Oracle: b, Case: line, Impl: impl, Signature: map[string]string{"oracle": "term-vote-durable-before-reply", "handler": "RequestVote"}})
+			}
 			compareSections(rep, "C08", line, impl, model, rvKeys, []string{"term", "ok"})
 		}
 	})
